@@ -69,7 +69,11 @@ def run(ctx):
                                  kinds=["auth", "auth", "auth", "update", "setadmin", "list"],
                                  files={k: v for k, v in F_UP.items() if k != "u3"}))
     results, events = af.run_scenarios(ctx, scs, "c12")
+    before = len(ctx.violations)
     n = af.judge(ctx, scs, results, events, "c12", "C12")
+    for v in ctx.violations[before:]:
+        if v["prop"] == "C11" and v["key"] in ("stale-upgrade-applied", "acked-change-undone"):
+            ctx.violation("C12", "upgrade-rewrote-for-another-password", v["detail"])
     cov["traces_validated_against_impl"] = cov.get("traces_validated_against_impl", 0) + n
     cov["evaluations"] = cov.get("evaluations", 0) + len(events)
     cov["agent_scenarios"] = [s["name"] for s in scs][:12]
